@@ -120,7 +120,7 @@ def run_case(case, policy=None, max_steps=20000):
     import frappy.lib.asynconn
     from vlib.sched import Scheduler
     from vlib.node import Node
-    from vlib import fakes
+    from vlib import fakes_io as fakes
 
     s = Scheduler(policy=policy, max_steps=max_steps)
     log = fakes.Log(s)
